@@ -63,7 +63,7 @@ def generate(seed, tier):
     pool = [src for name, src in files if ("import " not in src or (with_imports and "nowhere" not in src))]
     if with_imports:
         pool = [s for s in pool if "import " in s] * 6 + pool
-    for _ in range(rng.choice([2, 4, 8])):
+    for _ in range(rng.choice([2, 4, 8, 16])):
         pool.append(c18._generated_source(srng))
     names = [f"M{k}" for k in range(rng.randint(1, 3))]
     bare_files = rng.random() < 0.2
